@@ -1,0 +1,8 @@
+//go:build verif
+
+package statsd
+
+import "time"
+
+// VerifSetNow replaces the aggregator's clock (the `now` field is unexported).
+func (a *MetricAggregator) VerifSetNow(now func() time.Time) { a.now = now }
